@@ -1,5 +1,5 @@
 (** C02 - No task is lost or stuck: runnable work always gets run, jobs terminate. *)
-From HQ Require Import Base.Prelude Cluster.Types Cluster.Core Cluster.Reactor Cluster.Worker Cluster.Server Cluster.Sys Cluster.Monitors Cluster.ProofsJob Cluster.ProofsCore Cluster.ProofsMore Cluster.BijBase Cluster.BijFinal Cluster.BijWitness Cluster.RejHyp Cluster.InvWFinal.
+From HQ Require Import Base.Prelude Cluster.Types Cluster.Core Cluster.Reactor Cluster.Worker Cluster.Server Cluster.Sys Cluster.Monitors Cluster.ProofsJob Cluster.ProofsCore Cluster.ProofsMore Cluster.BijBase Cluster.BijFinal Cluster.BijWitness Cluster.RejHyp Cluster.InvWFinal Cluster.InvAll.
 From Coq Require Import ZArith.
 Local Open Scope N_scope.
 
@@ -61,6 +61,30 @@ Theorem C02_worker_sets_invariant : forall ops reserve maxfill s outs,
      end).
 Proof. exact worker_sets_invariant. Qed.
 
+(** The queue half of "no limbo": in EVERY reachable state the scheduler's queues agree with the task
+    states - a task is in the ready queue of its request class iff it is Waiting with no unfinished
+    dependency (or being retracted without a new destination), in the prefill set iff it is
+    Prefilled, nowhere otherwise; every id in a queue is a live task of that class.
+    Hypotheses as for the worker half: [op_wf] and the executable [run_fresh] (RejHyp.v). *)
+Theorem C02_queue_invariant : forall ops reserve maxfill s outs,
+  Forall op_wf ops -> run_fresh (init_sys reserve maxfill) ops = true -> run (init_sys reserve maxfill) ops = Ok (s, outs) ->
+  let c := s_core s in
+  queues_live_ok c = true /\
+  (forall t, In t (c_tasks c) ->
+     let q := queue_of c (t_rq t) in
+     match t_state t with
+     | Waiting n => in_ready q (t_id t) = N.eqb n 0 /\ in_prefill q (t_id t) = false
+     | Prefilled _ => in_prefill q (t_id t) = true /\ in_ready q (t_id t) = false
+     | Retracting _ => in_prefill q (t_id t) = false /\
+                       (in_ready q (t_id t) = match find_redirect (c_redirects c) (t_id t) with Some _ => false | None => true end)
+     | Assigned _ _ | Running _ _ | RunningMN _ => in_ready q (t_id t) = false /\ in_prefill q (t_id t) = false
+     | Finished => False
+     end) /\
+  (forall rq q id, nth_error (c_queues c) rq = Some q -> (in_ready q id = true \/ in_prefill q id = true) ->
+     exists t, find_task (c_tasks c) id = Some t /\ N.to_nat (t_rq t) = rq).
+Proof. exact queue_invariant_reachable. Qed.
+
+Print Assumptions C02_queue_invariant.
 Print Assumptions C02_worker_sets_invariant.
 Print Assumptions C02_no_phantom_no_orphan.
 Print Assumptions C02_no_phantom_example.
